@@ -649,7 +649,9 @@ Congruences_Reduction<D1, D2>::product_reduce(D1& d1, D2& d2) {
     else {
       if (!Parma_Polyhedra_Library::
           shrink_to_congruence_no_check(d1, d2, cg1)) {
-        // The product is empty.
+        // The product is empty: propagate emptiness to both components.
+        Parma_Polyhedra_Library::Smash_Reduction<D1, D2> sr;
+        sr.product_reduce(d1, d2);
         return;
       }
     }
@@ -665,10 +667,18 @@ Congruences_Reduction<D1, D2>::product_reduce(D1& d1, D2& d2) {
     else {
       if (!Parma_Polyhedra_Library::
           shrink_to_congruence_no_check(d2, d1, cg2)) {
-        // The product is empty.
+        // The product is empty: propagate emptiness to both components.
+        Parma_Polyhedra_Library::Smash_Reduction<D1, D2> sr;
+        sr.product_reduce(d1, d2);
         return;
       }
     }
+  }
+  // The refinements above may have made one of the components empty:
+  // propagate emptiness, as documented.
+  if (d1.is_empty() || d2.is_empty()) {
+    Parma_Polyhedra_Library::Smash_Reduction<D1, D2> sr;
+    sr.product_reduce(d1, d2);
   }
 }
 
